@@ -59,7 +59,7 @@ class Builder(object):
                     arcn += 1
                     txt = "%s%s%s %s %s%s%s" % (rx, pairsep, ry, rot, fa, pairsep, fs)
                     if dev == ZFINAL and last:
-                        txt += " z"
+                        txt += (" Z" if letter.isupper() else " z")
                     else:
                         x = self.pool[pos % len(self.pool)]
                         y = self.pool[(pos + 1) % len(self.pool)]
@@ -77,7 +77,7 @@ class Builder(object):
                     else:
                         txt = " ".join(nums[k] + pairsep + nums[k + 1] for k in range(0, n, 2))
                     if dev == ZFINAL and last:
-                        txt = (txt + " z").strip()
+                        txt = (txt + (" Z" if letter.isupper() else " z")).strip()
                     groups.append(txt)
             pieces.append(letter + " ".join(groups))
         return pieces
